@@ -148,7 +148,14 @@ func oracle(c Case) *ev.Verdict {
 	case v := <-done:
 		return v
 	case <-time.After(budget):
-		return ev.V("hang:"+c.Entry, "no result within %v for %s", budget, describe(c))
+		// a budget hit is not yet a verdict (the machine may be busy): the case gets ten times the budget
+		select {
+		case v := <-done:
+			ev.Class("all", "slow case: answered after more than the first budget")
+			return v
+		case <-time.After(9 * budget):
+			return ev.V("hang:"+c.Entry, "no result within %v for %s", 10*budget, describe(c))
+		}
 	}
 }
 
